@@ -24,6 +24,7 @@ const spSlots = 16
 type spFam struct {
 	c       *chain.Chain
 	base    sdk.Context
+	h0      int64 // height every scenario starts at (0 = the base state's own height)
 	ctx     sdk.Context
 	t0      time.Time
 	payers  []string
@@ -45,6 +46,7 @@ func (f *spFam) Reseed(r *rand.Rand) { f.rng = r }
 
 func (f *spFam) Setup(cfg M, rng *rand.Rand) {
 	f.rng = rng
+	f.h0 = geti0(cfg, "h0", 0)
 	f.payers = strs(getl(cfg, "payers"), []string{"a", "b"})
 	f.others = strs(getl(cfg, "others"), []string{"r", "p1"})
 	f.cw, f.iw = geti0(cfg, "C", 2), geti0(cfg, "I", 2)
@@ -82,6 +84,9 @@ func (f *spFam) Setup(cfg M, rng *rand.Rand) {
 
 func (f *spFam) Reset() M {
 	f.ctx, _ = f.base.CacheContext()
+	if f.h0 > 0 {
+		f.ctx = f.ctx.WithBlockHeight(f.h0)
+	}
 	f.slots = map[string]string{}
 	f.lastBuy = nil
 	f.gdep, f.grel = map[string]*big.Int{}, map[string]*big.Int{}
@@ -91,7 +96,9 @@ func (f *spFam) Reset() M {
 func (f *spFam) tick(t time.Time) int64 {
 	d := t.Sub(f.t0)
 	if d%time.Hour != 0 && !f.fine {
-		die(2, "sp: time %v is not a whole number of hours after the base time", t)
+		// the driver only produces whole hours; a time that is not comes from mis-computed durations in the code:
+		// projected as a negative tick no model state contains (formulas and strict action then disagree)
+		return -1 - int64(d/time.Hour)
 	}
 	return int64(d / time.Hour)
 }
@@ -103,9 +110,12 @@ func (f *spFam) rootLabel(root []byte) string {
 	return "?" + hex.EncodeToString(root)
 }
 
+// units converts a byte count of the real state into size units. Every size the driver sends is a whole number of units,
+// so a count that is not (only code that mis-computes footprints produces one) is projected as -1 - b/unit: a negative
+// number that no model state contains, which the accounting formulas (C07_Used) then reject.
 func units(b int64) int64 {
 	if b%spUnit != 0 {
-		die(2, "sp: byte count %d is not a multiple of the size unit", b)
+		return -1 - b/spUnit
 	}
 	return b / spUnit
 }
